@@ -14,9 +14,8 @@
   `geometryValidate` is the dispatch of `geometry_validate` (mode handling, tag table).
 -/
 import SoundeventModel.Geometry
-deriving instance DecidableEq for Except
-
 namespace SE.Validate
+
 
 /-- what can come out of a construction attempt besides an object -/
 inductive VErr
@@ -71,6 +70,17 @@ def GType.of : Geom → GType
   | .multiPolygon _ => .multiPolygon
 
 abbrev R (α : Type) := Except VErr α
+
+/-- results can be compared (core has no `DecidableEq (Except ε α)`); a named instance in this
+    namespace, so that it cannot clash with another module's -/
+instance decEqR {α : Type} [DecidableEq α] : DecidableEq (R α) := fun a b =>
+  match a, b with
+  | .ok x, .ok y =>
+    if h : x = y then isTrue (by rw [h]) else isFalse (fun h' => by injection h' with h''; exact h h'')
+  | .error x, .error y =>
+    if h : x = y then isTrue (by rw [h]) else isFalse (fun h' => by injection h' with h''; exact h h'')
+  | .ok _, .error _ => isFalse (fun h => by cases h)
+  | .error _, .ok _ => isFalse (fun h => by cases h)
 def bad {α} : R α := .error .invalid
 def crash {α} : R α := .error .crash
 
